@@ -42,6 +42,15 @@ UPDATE_USER = {M.D + 'update_indexes_for_update', M.OPS + 'update_indexes_for_up
 CREATE_INDEX = {M.D + 'create_index', M.OPS + 'create_index'}
 
 
+_SAME = ('every iteration assigns the same NULL/default/new key to the same columns of a child row: update_row either '
+         'fails on the first row (nothing changed yet) or on none')
+R5_EXEMPT = {
+    ('vibesql_executor::delete::integrity::set_null', M.T + 'update_row'): _SAME,
+    ('vibesql_executor::delete::integrity::set_default', M.T + 'update_row'): _SAME,
+    ('vibesql_executor::update::foreign_keys::ForeignKeyValidator::check_no_child_references', M.T + 'update_row'): _SAME,
+}
+
+
 def consumer_of(fn, loc, depth=0):
     """What happens to the `&mut rows` reference held in local `loc`: (kind, consumer, block)"""
     if loc == 0:
@@ -142,8 +151,7 @@ def run(ctx):
              and not M.in_impl_table(f)]
     roots = lambda f: not cg.inn.get(f.path)
 
-    def report(fo, rule, what, floor_name, floor):
-        sites = fo.direct_sites
+    def report(fo, rule, what, floor_name, floor, exempt=None):
         esc = {}
         for (ef, ofn, ocal, chain) in fo.escaped(roots):
             k = (ofn, ocal)
@@ -151,6 +159,9 @@ def run(ctx):
                 esc[k] = chain
         for (ofn, ocal), chain in sorted(esc.items()):
             f = prog.by_nice[ofn][0]
+            if exempt and (ofn, ocal) in exempt:
+                ctx.exempt(f'{rule}/{ofn}/{ocal}', exempt[(ofn, ocal)])
+                continue
             ctx.finding(f'{rule}/{ofn}/{ocal}', f'{ofn}: {ocal.rsplit("::",1)[1]} {what} (escapes through '
                         + ' <- '.join(c.split('::', 1)[1] for c in chain) + ')', f.loc, {'chain': chain})
 
@@ -166,31 +177,57 @@ def run(ctx):
 
     # ---------------------------------------------------------------- R2 user-defined indexes after update/delete
     ctx.rule('C15.R2', 'outside impl Table, after Table::update_row|update_row_selective a call to '
-             'Database::update_indexes_for_update|rebuild_indexes, and after delete_where|remove_row|clear|rows_mut a call '
+             'Database::update_indexes_for_update|rebuild_indexes, and after delete_where|remove_row|clear a call '
              'to Database::rebuild_indexes (row positions shift), happens on every path to an Ok return; '
              'helpers that leave the obligation open pass it to their callers (summaries to fix-point)')
     fo_u = Follow(prog, cg, lambda t, fn: callee_name(t) in M.ROW_UPDATE, lambda t, fn: callee_name(t) in UPDATE_USER, scope, dead=dead)
     report(fo_u, 'R2', 'is not followed by user-index maintenance on every successful path', '', 0)
-    fo_d = Follow(prog, cg, lambda t, fn: callee_name(t) in (M.ROW_DELETE | M.ROW_RAW),
+    fo_d = Follow(prog, cg, lambda t, fn: callee_name(t) in M.ROW_DELETE,
                   lambda t, fn: callee_name(t) in REBUILD_USER, scope, dead=dead)
     report(fo_d, 'R2', 'is not followed by a rebuild of the user-defined indexes on every successful path', '', 0)
-    n2 = count_sites(M.ROW_UPDATE | M.ROW_DELETE | M.ROW_RAW, 'R2')
-    ctx.floor('C15.R2 update/delete/raw mutation call sites outside impl Table', n2, 15)
+    n2 = count_sites(M.ROW_UPDATE | M.ROW_DELETE, 'R2')
+    ctx.floor('C15.R2 update/delete mutation call sites outside impl Table', n2, 11)
 
     # ---------------------------------------------------------------- R3 inserts outside Operations
     ctx.rule('C15.R3', 'after Table::insert outside impl Table: IndexManager::add_to_indexes_for_insert, '
              'Database::rebuild_indexes or a later Database::create_index (which scans the table) on every Ok path')
     ins_o = M.USER_INDEX_INSERT_MAINT | CREATE_INDEX
     fo_i = Follow(prog, cg, lambda t, fn: callee_name(t) in M.ROW_INSERT, lambda t, fn: callee_name(t) in ins_o, scope, dead=dead)
-    report(fo_i, 'R3', 'is not followed by user-index maintenance on every successful path', '', 0)
+    # which TransactionChange variants are ever recorded (undo arms for the others are dead code today)
+    from .C14 import recorded_variant, REC
+    from ..engine.cfg import defs_of
+    recorded = set()
+    for f in prog.fns.values():
+        d = None
+        for i, t in f.calls():
+            if callee_name(t) in REC:
+                d = d or defs_of(f)
+                v = recorded_variant(f, t, d)
+                if v:
+                    recorded.add(v)
+    ctx.extra['recorded_change_variants'] = sorted(recorded)
+    undo_ins = {}
+    if not (recorded & {'Update', 'Delete'}):
+        undo_ins = {(M.D + 'undo_change', M.T + 'insert'):
+                    'Table::insert is only called in the Update/Delete arms of undo_change and no code records '
+                    'TransactionChange::Update|Delete today (C14 finding), so the site is unreachable; the exemption '
+                    'lapses automatically once such a change is recorded anywhere'}
+    report(fo_i, 'R3', 'is not followed by user-index maintenance on every successful path', '', 0,
+           exempt={**undo_ins, ('vibesql_executor::alter::table_options::execute_rename_table', M.T + 'insert'):
+                   'rows are copied into a table stored under the new name; user indexes are registered per table name and '
+                   'none exists for the new name at that point (the registry entry left under the old name is C33\'s clause)'})
     n3 = count_sites(M.ROW_INSERT, 'R3')
     ctx.floor('C15.R3 Table::insert call sites outside impl Table', n3, 6)
 
-    # ---------------------------------------------------------------- R4 rows_mut => Table::rebuild_indexes
-    ctx.rule('C15.R4', 'after Table::rows_mut (raw row access) Table::rebuild_indexes is called on every Ok path')
-    fo_r = Follow(prog, cg, lambda t, fn: callee_name(t) in M.ROW_RAW,
+    # ---------------------------------------------------------------- R4 column positions shift => Table::rebuild_indexes
+    ctx.rule('C15.R4', 'a function that removes a value from stored rows (Row::remove_value: the positions of later columns '
+             'shift, and the constraint hash indexes address key columns by position) calls Table::rebuild_indexes on every Ok path')
+    ROW_SHIFT = {'vibesql_storage::row::Row::remove_value'}
+    fo_r = Follow(prog, cg, lambda t, fn: callee_name(t) in ROW_SHIFT and fn.unit != 'vibesql_storage',
                   lambda t, fn: callee_name(t) == M.T + 'rebuild_indexes', scope, dead=dead)
     report(fo_r, 'R4', 'is not followed by Table::rebuild_indexes (constraint hash indexes) on every successful path', '', 0)
+    n4 = count_sites(ROW_SHIFT, 'R4')
+    ctx.floor('C15.R4 Row::remove_value call sites', n4, 1)
 
     # ---------------------------------------------------------------- R5 no error return between mutation and maintenance
     ctx.rule('C15.R5', 'between a row mutation and its user-index maintenance call no Err return is reachable '
@@ -212,6 +249,9 @@ def run(ctx):
             for e in errs:
                 org = err_origin(f, e)
                 line = f.blocks[e]['t']['l']
+                if (f.nice, org) in R5_EXEMPT:
+                    ctx.exempt(f'R5/{f.nice}/{cn}/{org}', R5_EXEMPT[(f.nice, org)])
+                    continue
                 ctx.finding(f'R5/{f.nice}/{cn}/{org}', f'{f.nice}: an error return ({org}, line {line}) is reachable after '
                             f'{cn.rsplit("::",1)[1]} succeeded and before the user-index maintenance',
                             f'{f.file}:{line}')
